@@ -74,6 +74,25 @@ def run_untrusted(v, wd, exe, seed, tier, focus):
     vlib.harness(exe, ["dump-bases", "--bases", bp, "--out", bd])
     imgs = [open(os.path.join(bd, f"base{i}.e57"), "rb").read() for i in range(len(bases))]
     muts = mutgen.generate(imgs, seed, tier)
+    # cost cases (QueueCostSpec): sections whose packets never complete a point until the last one, with bytes in the
+    # streams of zero-width records; one next() walks through all packets.  Read as they are (no edits).
+    import queuefiles
+    M = 400 if tier == "quick" else 3000
+    cost = [queuefiles.cost_case([0, 8], [4, 0], M, [0, 1], f"cost:zero-width-stream-4B-x{M}"),
+            queuefiles.cost_case([0, 0, 16], [1, 2, 0], M, [0, 0, 2], f"cost:two-zero-width-streams-x{M}"),
+            queuefiles.cost_case([8, 0, 3], [0, 7, 0], M, [1, 0, 1], f"cost:zero-width-stream-between-x{M}"),
+            queuefiles.cost_case([64, 8], [0, 4], M, [8, 0], f"cost:wide-record-starved-x{M}"),
+            queuefiles.cost_case([13, 64], [1, 0], M, [1, 8], f"cost:narrow-record-ahead-x{M}"),
+            queuefiles.cost_case([8], [0], M, [1], f"cost:empty-data-packets-x{M}")]
+    for c in cost:
+        img, _scene = materialize.build_file([c], v=0, guid="cost")
+        fp = os.path.join(wd, "costbase_" + c["name"].split(":")[1] + ".e57")
+        open(fp, "wb").write(img)
+        bases.append({"name": c["name"], "file": fp})
+        muts.append({"name": c["name"], "base": len(bases) - 1, "edits": []})
+    with open(bp, "w") as f:
+        for b in bases:
+            f.write(json.dumps(b) + "\n")
     mp = os.path.join(wd, "muts.ndjson")
     with open(mp, "w") as f:
         for m in muts:
